@@ -5,7 +5,7 @@ import re
 from acverif.mir import short, tstr, subterms, affine_str
 from acverif.rl import (is_call, peel, peel_all, is_var, is_agg, is_const, self_field, bool_gates, try_gates, discr_gates,
                         reachable_without, must_pass, line_of, decision_table, rewrite, expand_vars, atom, cmp_norm, eq_cond,
-                        var_defs_terms, is_named_const, strip_convs, inline_closures, variant_name, enum_paths, path_conditions, path_value, unwrapped, param_at, enum_gates, arm_edges, other_edges, result_gates, value_roots)
+                        var_defs_terms, is_named_const, strip_convs, inline_closures, variant_name, enum_paths, path_conditions, path_value, unwrapped, param_at, enum_gates, arm_edges, other_edges, result_gates, value_roots, param_of_type)
 
 AUTOS = ('nfa::noncontiguous::NFA', 'nfa::contiguous::NFA', 'dfa::DFA')
 FWD_SELF = ("&'a A", "alloc::sync::Arc<(dyn ahocorasick::AcAutomaton + 'static)>")
@@ -168,27 +168,29 @@ def r16_2(cx):
     FIELDS = ('max_special_id', 'max_match_id', 'start_unanchored_id', 'start_anchored_id')
     b = cx.body('nfa::contiguous::Builder::build_from_noncontiguous')
     got = {}
+    NN = param_of_type(b, r'noncontiguous::NFA')
+    maps = [i for i, l in enumerate(b.locals) if l['ty'].startswith('alloc::vec::Vec<util::primitives::StateID') and b.def_term(i) is not None and is_call(expand_vars(b, b.def_term(i)), r'alloc::vec::from_elem$')]
     for bi, si, tt, v, s in b.field_stores():
         if tt[0] == 'f' and tt[2] in FIELDS:
-            got.setdefault(tt[2], []).append(expand_vars(b, v, keep=('old', 'remap', 'nnfa', 'index_to_state_id')))
-    for f in FIELDS:
-        vs = got.get(f, [])
-        ok = len(vs) == 1 and is_call(vs[0], r'Index::index$') and ('index_to_state_id' in tstr(vs[0][2][0]) or 'remap' in tstr(vs[0][2][0])) and vs[0][2][1][0] == 'f' and vs[0][2][1][2] == f
-        cx.report('R16.2', b, 'special:' + f, ok, 'special.%s = remap[old.%s]' % (f, f) if ok else 'contiguous special.%s is assigned %s' % (f, [tstr(v, 80) for v in vs]))
-    ol = b.locals_named('old')
-    d = b.def_term(ol[0]) if ol else None
-    ok = d is not None and is_call(d, r'NFA::special$') and is_var(peel(d[2][0]), 'nnfa')
-    cx.report('R16.2', b, 'old-source', ok, 'old = nnfa.special()' if ok else 'old special ids do not come from nnfa.special()')
-    bb = cx.body('dfa::Builder::finish_build_both_starts')
-    got = {}
-    for bi, si, tt, v, s in bb.field_stores():
-        if tt[0] == 'f' and tt[2] in FIELDS:
             got.setdefault(tt[2], []).append(v)
+    okold = True
     for f in FIELDS:
         vs = got.get(f, [])
-        table = 'remap_unanchored' if f == 'start_unanchored_id' else 'remap_anchored'
-        ok = len(vs) == 1 and is_call(vs[0], r'Index::index$') and is_var(peel(vs[0][2][0]), table) and vs[0][2][1][0] == 'f' and vs[0][2][1][2] == f
-        cx.report('R16.2', bb, 'special:' + f, ok, 'special.%s = %s[old.%s]' % (f, table, f) if ok else 'DFA (both starts) special.%s is assigned %s' % (f, [tstr(v, 80) for v in vs]))
+        ok = len(vs) == 1 and len(maps) == 1
+        if ok:
+            v = peel_all(vs[0])
+            mp = peel_all(expand_vars(b, v[2][0], keep=lambda x: x[2] in maps)) if is_call(v, r'Index::index$') else ('s', '?')
+            ok = is_call(v, r'Index::index$') and mp[0] == 'v' and mp[2] == maps[0]
+            if ok:
+                src = peel_all(expand_vars(b, v[2][1]))
+                ok = src[0] == 'f' and src[2] == f
+                if ok:
+                    base = peel_all(src[1])
+                    okold = okold and is_call(base, r'NFA::special$') and peel_all(base[2][0]) == NN
+        cx.report('R16.2', b, 'special:' + f, ok, 'special.%s = remap[old.%s]' % (f, f) if ok else 'contiguous special.%s is assigned %s' % (f, [tstr(v, 80) for v in vs]))
+    cx.report('R16.2', b, 'old-source', okold, 'the old special ids are nnfa.special()' if okold else 'old special ids do not come from nnfa.special()')
+    from rules.dfabuild import both_starts_rules
+    both_starts_rules(cx, ids=('R16.2',))
     from rules.dfabuild import r16_2_one_start, r_one_start_closure
     r16_2_one_start(cx)
     r_one_start_closure(cx, ids=('R16.2',))
